@@ -49,7 +49,8 @@ DstBody(name, call) ==
     [] name = "mmap" -> U32Bytes(24) \o U32Bytes(0) \o FlatMap(AreaBytes, call.areas)
     [] name = "framebuffer" ->
          call.address \o call.pitch \o call.width \o call.height \o call.bpp
-         \o (CASE call.fbtype = "indexed" -> <<0, 0, 0>> \o U16Bytes(Len(call.palette)) \o FlatMap(ColorBytes, call.palette)
+         \o (CASE call.fbtype = "indexed" -> <<0, 0, 0>> \o U16Bytes(Len(call.palette) % 65536)      \* the count is a u16
+                                              \o [i \in 1..(3 * Len(call.palette)) |-> call.palette[((i - 1) \div 3) + 1][((i - 1) % 3) + 1]]
                [] call.fbtype = "rgb" -> <<1, 0, 0>> \o call.rgb
                [] OTHER -> <<2, 0, 0>>)
     [] name = "elf" -> call.number_of_sections \o call.entry_size \o call.shndx \o call.content
@@ -62,6 +63,7 @@ DstBody(name, call) ==
 CtorPanics(name, call) ==
   CASE name = "module" -> ~LtLE(call.start_address, call.end_address)           \* "must have a size"
     [] name = "efi_mmap" -> ~Has(call, "descs") /\ call.desc_size = <<0, 0, 0, 0>>
+    [] name = "framebuffer" -> call.fbtype = "indexed" /\ Len(call.palette) > 65535      \* the colour count is a u16
     [] OTHER -> FALSE
 \* EFI memory map built from descriptors: 40-byte UEFI descriptors, version 1; the 4 bytes after `ty` are padding
 DescBytes(d) == d.ty \o <<0, 0, 0, 0>> \o d.phys_start \o d.virt_start \o d.page_count \o d.att
